@@ -355,16 +355,17 @@ def origin_cert(paths: Dict[str, str], name: str, kind: str) -> Dict[str, str]:
         san = 'IP:%s' % subject
     except ValueError:
         san = 'DNS:%s' % subject
+    cn = subject if len(subject) <= 64 else 'long-name-origin'      # commonName is limited to 64 characters
     o = 'openssl'
     ext = os.path.join(d, 'ext-%s.cnf' % tag)
     with open(ext, 'w') as f:
         f.write('subjectAltName=%s\nbasicConstraints=CA:FALSE\n' % san)
     if kind == 'selfsigned':
-        _run([o, 'req', '-new', '-x509', '-days', '365', '-set_serial', '4099', '-key', 'origin-key.pem', '-out', crt, '-subj', '/CN=%s' % subject,
+        _run([o, 'req', '-new', '-x509', '-days', '365', '-set_serial', '4099', '-key', 'origin-key.pem', '-out', crt, '-subj', '/CN=%s' % cn,
               '-addext', 'subjectAltName=%s' % san], d)
         return {'cert': crt, 'key': key}
     csr = os.path.join(d, 'o-%s.csr' % tag)
-    _run([o, 'req', '-new', '-key', 'origin-key.pem', '-out', csr, '-subj', '/CN=%s' % subject], d)
+    _run([o, 'req', '-new', '-key', 'origin-key.pem', '-out', csr, '-subj', '/CN=%s' % cn], d)
     if kind == 'expired':
         # `openssl ca` takes explicit validity dates on every OpenSSL 1.1 / 3.x (x509 -days -1 is refused by some builds)
         db = os.path.join(d, 'db-%s' % tag)
